@@ -14,10 +14,10 @@ import json, os
 import vlib
 
 
-def validate_traces(c, n_hint):
+def validate_traces(c, n_hint, mult=1):
     d = vlib.scratch('recv-')
     p = os.path.join(d, 'recv_traces.json')
-    res = vlib.run_harness(['recvtrace', p, c.tier], timeout=1500)
+    res = vlib.run_harness(['recvtrace', p, c.tier], timeout=3000, env_extra={'VERIF_SETTLE_MULT': str(mult)})
     vlib.absorb(c, res)
     traces = json.load(open(p))
     # TLC: batches of traces, acceptance = invariant NotAccepted violated
@@ -56,6 +56,12 @@ def validate_traces(c, n_hint):
                             lo = k
                             break
                     ev = tr[lo] if lo < len(tr) else tr[-1]
+                    if mult == 1:
+                        # an observation taken before the goroutines were really blocked looks like a rejected trace:
+                        # record again with a five times longer settle window; only a rejection there is reported
+                        c.extra['rerecorded_after_rejection'] = True
+                        vlib.cleanup(r)
+                        return validate_traces(c, n_hint, mult=5)
                     c.violation('recorded behaviour of the real Receiver is not a behaviour of Receiver.tla: after %d accepted events the event %s with observation %s is not explained'
                                 % (lo, {k: v for k, v in ev.items() if k != 'obs'}, ev['obs']), tr[:lo + 1],
                                 {'prop': 'C16', 'class': 'trace-rejected', 'ev': ev['ev']})
@@ -74,7 +80,7 @@ def run(c):
     vlib.absorb(c, res)
     res = vlib.run_harness(['onlyonce'], timeout=900)
     vlib.absorb(c, res)
-    c.assumptions += ['the recorded state is observed after the goroutines settled (stable for 9 ms); a state that does not settle is inconclusive',
+    c.assumptions += ['the recorded state is observed after the goroutines settled (stable for 30 ms; after a rejection everything is recorded again with a 150 ms window and only a rejection there is reported); a state that does not settle is inconclusive',
                       'transient failures: bounded number of faults in the liveness model']
     c.extra['rule'] = 'seeded random external actions on the real Receiver; each trace = 60-80 events, validated by TLC'
 
